@@ -49,7 +49,7 @@
 (* this holds) -- an overflow would make TLC stop with an error, it can    *)
 (* never produce a wrong verdict.                                          *)
 (***************************************************************************)
-EXTENDS Integers, Sequences
+EXTENDS Integers, Sequences, SequencesExt
 
 \* ---------------------------------------------------------------- helpers
 LsAbs(a) == IF a < 0 THEN -a ELSE a
@@ -57,9 +57,9 @@ LsAbs(a) == IF a < 0 THEN -a ELSE a
 RECURSIVE LsP2(_)
 LsP2(k) == IF k <= 0 THEN 1 ELSE 2 * LsP2(k - 1)
 
-RECURSIVE LsSumFrom(_, _)
-LsSumFrom(s, i) == IF i > Len(s) THEN 0 ELSE s[i] + LsSumFrom(s, i + 1)
-LsSum(s) == LsSumFrom(s, 1)
+\* sum of an integer sequence (SequencesExt!FoldLeft: linear time, no deep recursion --
+\* the size-ladder events have a thousand rows)
+LsSum(s) == FoldLeft(LAMBDA a, b : a + b, 0, s)
 
 LsDot(a, b)    == LsSum([k \in 1..Len(a) |-> a[k] * b[k]])
 LsAbsDot(a, b) == LsSum([k \in 1..Len(a) |-> LsAbs(a[k]) * LsAbs(b[k])])
@@ -77,7 +77,8 @@ LsColSq(X, j)   == LsDot(LsCol(X, j), LsCol(X, j))
 \* n^2 * (population variance of column j): an integer
 LsVarN2(X, j)   == Len(X) * LsColSq(X, j) - LsColSum(X, j) * LsColSum(X, j)
 \* n * (X_ij - mu_j): the centred column, an integer vector
-LsCentred(X, j) == LET s == LsColSum(X, j) IN [i \in 1..Len(X) |-> Len(X) * X[i][j] - s]
+LsCentredWith(X, j, s) == [i \in 1..Len(X) |-> Len(X) * X[i][j] - s]     \* s as an argument: evaluated once
+LsCentred(X, j) == LsCentredWith(X, j, LsColSum(X, j))
 
 \* ------------------------------------------------- residual and magnitudes
 LsResid(X, y, W, B, S) == [i \in 1..Len(X) |-> y[i] * LsP2(S) - LsDot(X[i], W) - B]
